@@ -75,6 +75,16 @@ Theorem C03_full_order_independence_refuted :
 Proof. exact full_order_independence_refuted. Qed.
 Print Assumptions C03_full_order_independence_refuted.
 
+(* ... and, with a live set that IS pairwise MED-comparable, a since-withdrawn candidate that was not can leave the list
+   mis-ordered: the reported best path differs from the one a fresh arrival of the same live set gives (known finding
+   stale-order-after-incomparable-candidate) *)
+Theorem C03_stale_order_after_withdrawal_refuted :
+  exists o h,
+    (forall a b, In a (live h) -> In b (live h) -> med_applies o a b = true) /\
+    best (run o h) <> best (run o (map Announce (live h))).
+Proof. exact stale_order_after_withdrawal_refuted. Qed.
+Print Assumptions C03_stale_order_after_withdrawal_refuted.
+
 (* Non-vacuity: a five-candidate history (local, two eBGP, two iBGP; a replacement and a withdrawal)
    satisfies hist_ok under every option setting used below. *)
 Definition ex_c (tag a id addr lp med ts : Z) (segs : list (Z * list Z)) : cand :=
